@@ -374,7 +374,8 @@ pub fn shrink(
 fn render_case(prop: &str, tapes: &[Vec<u32>; 5]) -> serde_json::Value {
     // Rebuild the workload from the tapes for a human-readable rendering.
     let mut t = Tapes::replaying(tapes);
-    match crate::runner::build_workload(&mut t, prop == "C22") {
+    let bias_tags = matches!(prop, "C04" | "C05") && t.query.draw(2) == 1;
+    match crate::runner::build_workload_biased(&mut t, prop == "C22", bias_tags) {
         Ok(w) => w.render(),
         Err(_) => serde_json::json!({"note": "workload could not be rebuilt for rendering"}),
     }
